@@ -8,6 +8,8 @@ RULE = ('case = (listener, generated datapoint sequence, batching, encoding choi
         'bytes), random k-cuts; the recorder on events.metricReceived must equal the generated sequence exactly '
         '(names, numeric timestamps, bit-identical values); non-trivial = stream with >=2 datapoints or a non-ASCII name; '
         'distinct = distinct streams')
+RULE_MORE = (' Further families: python2-style pickle frames (8-bit names), names up to 16 kB, frames of 1000-12000 datapoints with calls deferred through reactor.callLater run between reads, METRIC_CLIENT_IDLE_TIMEOUT with time passing on a virtual clock (UDP port stand-in), the sender closing in the middle of the stream.')
+RULE = RULE + RULE_MORE
 EXHAUSTIVE = {'quick': True, 'thorough': True}
 EXHAUSTIVE_OVER = 'single cut positions of every generated TCP stream; cut pairs of streams <= 48 bytes'
 ASSUMPTIONS = ['protobuf listener not runnable (google.protobuf absent)',
